@@ -1,8 +1,8 @@
 (** C07 — The thread pool never deadlocks, loses a wake-up or leaks workers.
     Statements only; each closed by [exact] of a lemma in Proofs/Pool*.v.
     See Properties/C06.v for what [reachable code_cfg scr s] quantifies over. *)
-From DivanV Require Import Base.Res Generated.Consts Model.Pool Proofs.Pool Proofs.PoolLive Proofs.PoolEnabled Proofs.PoolMonitor.
-Import PoolM.
+From DivanV Require Import Base.Res Generated.Consts Model.Pool Model.PoolFail Proofs.PoolFail Proofs.Pool Proofs.PoolLive Proofs.PoolEnabled Proofs.PoolMonitor.
+Import PoolM PoolF.
 
 (** Obligation on the generated constants ([== 1], [while], [> 0]). *)
 Theorem C07_cfg_good : good code_cfg.
@@ -74,3 +74,35 @@ Theorem C07_monitor_model : forall scr ls s',
   PoolMon.check scr (panics s') (PoolMon.trace code_cfg (init scr) ls) = [].
 Proof. exact (fun scr ls s' => monitor_complete code_cfg scr ls s' C07_cfg_good). Qed.
 Print Assumptions C07_monitor_model.
+
+(** * Failed thread creation (Model/PoolFail.v; see Properties/C06.v)
+
+    Along every execution of the extended relation (aborted broadcasts anywhere
+    in the script): no lost wake-up, every non-final state has an enabled step
+    that is not a spurious wake-up, and the lexicographic measure decreases on
+    every step that is not a spurious wake-up (the aborted broadcast included). *)
+Theorem C07_later_broadcasts_live : forall scr x,
+  xreachable code_cfg code_fcfg scr x ->
+  (forall n, cst (base x) = CPark n -> rc (base x) = 0 -> token (base x) = false ->
+     exists k x', getw (base x) k = Some (WUnpark (cur (base x)))
+                  /\ xstep code_cfg code_fcfg x (XStep (EWUnpark k)) = Some x')
+  /\ (xfinal x = false -> exists l x', l <> ESpurious /\ xstep code_cfg code_fcfg x (XStep l) = Some x')
+  /\ (forall xl x', xstep code_cfg code_fcfg x xl = Some x' -> xl <> XStep ESpurious -> xlex_lt x' x).
+Proof. exact (fun scr x => x_c07 code_cfg scr x C07_cfg_good). Qed.
+Print Assumptions C07_later_broadcasts_live.
+
+(** Hence no infinite extended execution has finitely many spurious wake-ups, ... *)
+Theorem C07_fail_terminates : forall scr (f : nat -> xstate) (ls : nat -> xlabel),
+  f 0 = xinit scr -> (forall i, xstep code_cfg code_fcfg (f i) (ls i) = Some (f (S i))) ->
+  forall N, exists i, N <= i /\ ls i = XStep ESpurious.
+Proof. exact (fun scr f ls => x_no_infinite_run code_cfg scr f ls C07_cfg_good). Qed.
+Print Assumptions C07_fail_terminates.
+
+(** ... and from every state of an extended execution the final state (pool
+    dropped, every worker — also those created by an aborted broadcast —
+    exited) is reached without relying on a spurious wake-up. *)
+Theorem C07_fail_reaches_final : forall scr x,
+  xreachable code_cfg code_fcfg scr x ->
+  exists ls x', xrun code_cfg code_fcfg x ls = Some x' /\ xfinal x' = true /\ ~ In (XStep ESpurious) ls.
+Proof. exact (fun scr x => x_reaches_final code_cfg scr x C07_cfg_good). Qed.
+Print Assumptions C07_fail_reaches_final.
